@@ -306,3 +306,52 @@ Proof.
   split; [apply predict_xw_none; exact Hn|]. split; [apply cdf_xw_none; exact Hn|].
   intros tau. apply quantile_xw_none. exact Hn.
 Qed.
+
+(* ------------------------------------------------------------------ the pairs cdf / quantiles work on *)
+Lemma combine_take_idx {A B} (dA : A) (dB : B) (X : list A) (W : list B) V :
+  combine (take_idx dA X V) (take_idx dB W V) = map (fun k => (nth k X dA, nth k W dB)) V.
+Proof. unfold take_idx. induction V as [|k V IH]; [reflexivity|]. cbn [map combine]. rewrite IH. reflexivity. Qed.
+
+Lemma map_nth_pairs {A B} (dA : A) (dB : B) (X : list A) (W : list B) : length X = length W ->
+  map (fun k => (nth k X dA, nth k W dB)) (seq 0 (length X)) = combine X W.
+Proof.
+  intros Hl.
+  rewrite <- (take_idx_seq (dA, dB) (combine X W)) at 1.
+  rewrite combine_length, <- Hl, Nat.min_id. unfold take_idx.
+  apply map_ext. intros k. symmetry. apply combine_nth. exact Hl.
+Qed.
+
+Lemma slice_map {A B} (f : A -> B) l il iu : slice il iu (map f l) = map f (slice il iu l).
+Proof. unfold slice. rewrite skipn_map, firstn_map. reflexivity. Qed.
+
+(* the (x, w) pairs cdf / predict_quantiles work on are exactly the pairs of the window, each once, in
+   ascending order of x *)
+Lemma view_xw_is_sorted_window m Sinv v ymean pc1_e (db : list entry) xinds yobs x2 il iu ws :
+  weights m Sinv v ymean pc1_e db yobs x2 = (il, iu, ws) ->
+  (il <= iu <= length db)%nat ->
+  Permutation xinds (seq 0 (length db)) ->
+  StronglySorted Rle (take_idx 0 (map snd db) xinds) ->
+  Permutation (view_xw m Sinv v ymean pc1_e db xinds yobs x2) (window_xw m Sinv v ymean pc1_e db yobs x2) /\
+  nondecreasing (map fst (view_xw m Sinv v ymean pc1_e db xinds yobs x2)).
+Proof.
+  intros Hw Hr HP Hs. unfold view_xw, window_xw. rewrite Hw.
+  assert (Hlw : length ws = (iu - il)%nat).
+  { revert Hw. unfold weights. destruct (Rlt_dec x2 0).
+    - intros E. injection E as <- <- <-. unfold gauss_prob. rewrite map_length, Nat.sub_0_r. reflexivity.
+    - destruct (find_hits m v ymean pc1_e db yobs x2) as [a b]. intros E. injection E as <- <- <-.
+      unfold gauss_prob. rewrite map_length. apply slice_length. exact Hr. }
+  set (X := map snd (slice il iu db)).
+  assert (HlX : length X = (iu - il)%nat) by (unfold X; rewrite map_length; apply slice_length; exact Hr).
+  assert (Hr' : (il <= iu <= length (map snd db))%nat) by (rewrite map_length; exact Hr).
+  assert (HP' : Permutation xinds (seq 0 (length (map snd db)))) by (rewrite map_length; exact HP).
+  destruct (view_sorted_window Rle 0 (map snd db) xinds il iu Hr' HP' Hs) as (Hsorted & Hv & _).
+  split.
+  - unfold view_of. rewrite slice_map. fold X. rewrite combine_take_idx.
+    rewrite <- (map_nth_pairs 0 0 X ws) by lia. rewrite HlX.
+    apply Permutation_map. exact Hv.
+  - assert (E : map fst (combine (view_of 0 (map snd db) xinds il iu) (take_idx 0 ws (view xinds il iu)))
+               = view_of 0 (map snd db) xinds il iu).
+    { unfold view_of, take_idx. set (V := view xinds il iu). clearbody V. clear.
+      induction V as [|k V IH]; [reflexivity|]. cbn [map combine fst]. rewrite IH. reflexivity. }
+    rewrite E. apply strongly_sorted_nondecreasing. exact Hsorted.
+Qed.
